@@ -1,0 +1,218 @@
+//! Verification hooks (only compiled with `--cfg hlorenzi_customasm_verif`).
+//!
+//! A per-thread event sink: the code under test calls `emit` at the
+//! linearisation points of the steps a specification cares about; a
+//! harness brackets a run with `start()` / `finish()`. Nothing is
+//! recorded unless a harness called `start()` on the current thread.
+//! Events are self-contained JSON objects (one per line when written out).
+
+use std::cell::RefCell;
+
+
+#[derive(Clone, Debug)]
+pub enum V
+{
+	Null,
+	B(bool),
+	I(i128),
+	S(String),
+	L(Vec<V>),
+	O(Vec<(&'static str, V)>),
+}
+
+
+thread_local!
+{
+	static SINK: RefCell<Option<Vec<String>>> = RefCell::new(None);
+	static LAST_MERGE: RefCell<Option<bool>> = RefCell::new(None);
+	static SCRATCH: RefCell<Vec<(&'static str, V)>> = RefCell::new(Vec::new());
+}
+
+
+pub fn start()
+{
+	SINK.with(|s| *s.borrow_mut() = Some(Vec::new()));
+	LAST_MERGE.with(|s| *s.borrow_mut() = None);
+	SCRATCH.with(|s| s.borrow_mut().clear());
+}
+
+
+pub fn finish() -> Vec<String>
+{
+	SINK.with(|s| s.borrow_mut().take().unwrap_or_default())
+}
+
+
+pub fn active() -> bool
+{
+	SINK.with(|s| s.borrow().is_some())
+}
+
+
+pub fn emit(name: &'static str, mut fields: Vec<(&'static str, V)>)
+{
+	if !active()
+	{
+		return;
+	}
+
+	let mut all = vec![("ev", V::S(name.to_string()))];
+	all.append(&mut fields);
+
+	let mut out = String::new();
+	V::O(all).write_json(&mut out);
+
+	SINK.with(|s|
+	{
+		if let Some(ref mut vec) = *s.borrow_mut()
+		{
+			vec.push(out);
+		}
+	});
+}
+
+
+/// Records the resolution state handed to `ResolutionState::merge`
+/// (true = Resolved), so the per-node event can report it.
+pub fn note_merge(resolved: bool)
+{
+	LAST_MERGE.with(|s| *s.borrow_mut() = Some(resolved));
+}
+
+
+pub fn take_merge() -> Option<bool>
+{
+	LAST_MERGE.with(|s| s.borrow_mut().take())
+}
+
+
+/// Side-channel for facts computed deep inside a step, to be attached
+/// to the event emitted when the step is complete.
+pub fn note(key: &'static str, value: V)
+{
+	if !active()
+	{
+		return;
+	}
+
+	SCRATCH.with(|s| s.borrow_mut().push((key, value)));
+}
+
+
+pub fn take_notes() -> Vec<(&'static str, V)>
+{
+	SCRATCH.with(|s| std::mem::take(&mut *s.borrow_mut()))
+}
+
+
+pub fn bits_of(bigint: &crate::util::BigInt) -> V
+{
+	match bigint.size
+	{
+		None => V::Null,
+		Some(size) =>
+		{
+			let mut s = String::with_capacity(size);
+			for i in 0..size
+			{
+				s.push(if bigint.get_bit(size - 1 - i) { '1' } else { '0' });
+			}
+			V::S(s)
+		}
+	}
+}
+
+
+pub fn bigint_of(bigint: &crate::util::BigInt) -> V
+{
+	V::O(vec![
+		("v", V::S(bigint.verif_to_decimal())),
+		("size", match bigint.size { Some(s) => V::I(s as i128), None => V::Null }),
+	])
+}
+
+
+pub fn value_of(value: &crate::expr::Value) -> V
+{
+	use crate::expr::Value;
+
+	match value
+	{
+		Value::Unknown => V::O(vec![("t", V::S("unknown".into()))]),
+		Value::FailedConstraint(_) => V::O(vec![("t", V::S("failed".into()))]),
+		Value::Void => V::O(vec![("t", V::S("void".into()))]),
+		Value::Integer(b) => V::O(vec![
+			("t", V::S("int".into())),
+			("v", V::S(b.verif_to_decimal())),
+			("size", match b.size { Some(s) => V::I(s as i128), None => V::Null }),
+		]),
+		Value::String(s) => V::O(vec![
+			("t", V::S("str".into())),
+			("s", V::S(s.utf8_contents.clone())),
+			("enc", V::S(s.encoding.clone())),
+		]),
+		Value::Bool(b) => V::O(vec![
+			("t", V::S("bool".into())),
+			("b", V::B(*b)),
+		]),
+		Value::ExprBuiltInFunction(_) |
+		Value::AsmBuiltInFunction(_) |
+		Value::Function(_) => V::O(vec![("t", V::S("fn".into()))]),
+	}
+}
+
+
+impl V
+{
+	pub fn write_json(&self, out: &mut String)
+	{
+		match self
+		{
+			V::Null => out.push_str("null"),
+			V::B(b) => out.push_str(if *b { "true" } else { "false" }),
+			V::I(i) => out.push_str(&i.to_string()),
+			V::S(s) =>
+			{
+				out.push('"');
+				for c in s.chars()
+				{
+					match c
+					{
+						'"' => out.push_str("\\\""),
+						'\\' => out.push_str("\\\\"),
+						'\n' => out.push_str("\\n"),
+						'\r' => out.push_str("\\r"),
+						'\t' => out.push_str("\\t"),
+						c if (c as u32) < 0x20 =>
+							out.push_str(&format!("\\u{:04x}", c as u32)),
+						c => out.push(c),
+					}
+				}
+				out.push('"');
+			}
+			V::L(items) =>
+			{
+				out.push('[');
+				for (i, item) in items.iter().enumerate()
+				{
+					if i > 0 { out.push(','); }
+					item.write_json(out);
+				}
+				out.push(']');
+			}
+			V::O(fields) =>
+			{
+				out.push('{');
+				for (i, (k, v)) in fields.iter().enumerate()
+				{
+					if i > 0 { out.push(','); }
+					out.push('"');
+					out.push_str(k);
+					out.push_str("\":");
+					v.write_json(out);
+				}
+				out.push('}');
+			}
+		}
+	}
+}
